@@ -1871,10 +1871,17 @@ func (s *Server) sendDelayedLWT(dt int64) {
 	for id, pk := range s.loop.willDelayed.GetAll() {
 		if dt > pk.Expiry {
 			s.publishToSubscribers(pk) // [MQTT-3.1.2-8]
-			if cl, ok := s.Clients.Get(id); ok {
-				if pk.FixedHeader.Retain {
-					s.retainMessage(cl, pk)
+			cl, ok := s.Clients.Get(id)
+			if pk.FixedHeader.Retain {
+				owner := cl
+				if !ok {
+					// the session can have expired in the same housekeeping round, before this sweep:
+					// its will is still retained as requested
+					owner = s.NewClient(nil, LocalListener, id, false)
 				}
+				s.retainMessage(owner, pk)
+			}
+			if ok {
 				atomic.StoreUint32(&cl.Properties.Will.Flag, 0) // [MQTT-3.1.2-10] (the flag is what every reader tests, atomically)
 				s.hooks.OnWillSent(cl, pk)
 			}
